@@ -96,10 +96,21 @@ def run_one(params, timeout=300):
     return text
 
 
+_TRACE_CACHE = {}      # scenario (canonical json) -> Trace; several parts of one ./check run ask for the same scenarios
+
+
 def run_many(scenarios, workers=14, timeout=300):
+    import json
+    keys = [json.dumps(p, sort_keys=True) for p in scenarios]
+    todo = [(k, p) for k, p in dict(zip(keys, scenarios)).items() if k not in _TRACE_CACHE]
     with concurrent.futures.ThreadPoolExecutor(max_workers=workers) as ex:
-        texts = list(ex.map(lambda p: run_one(p, timeout), scenarios))
-    return [Trace(p, t) for p, t in zip(scenarios, texts)]
+        texts = list(ex.map(lambda kp: run_one(kp[1], timeout), todo))
+    fresh = {k: Trace(p, t) for (k, p), t in zip(todo, texts)}
+    out = [fresh[k] if k in fresh else _TRACE_CACHE[k] for k in keys]
+    for k, tr in fresh.items():
+        if len(_TRACE_CACHE) < 256:      # bounded: the thorough tier runs thousands of scenarios
+            _TRACE_CACHE[k] = tr
+    return out
 
 
 # ---------------------------------------------------------------------------------------
